@@ -72,13 +72,24 @@ def run_history(rng, kind, ops):
             ind.features["feat"] = o[2]
             proj[id(ind)] = ({"c": ranks[k], "m": absx.abstract_marker(o[1][-1])}, frank[o[2]])
             k += 1
-            st, res = observe(arch.add, ind)
+            how = rng.choice(["add", "add", "add", "append", "extend", "iadd", "iadd-list"])
+            if how == "add":
+                st, res = observe(arch.add, ind)
+            elif how == "append":
+                st, res = observe(arch.append, ind)
+            elif how == "extend":
+                st, res = observe(arch.extend, [ind])
+            elif how == "iadd":
+                st, res = observe(arch.__iadd__, ind)
+            else:
+                st, res = observe(arch.__iadd__, [ind])
             ev = {"ev": "add", "x": proj[id(ind)][0], "res": False, "inserted": False, "after": [], "exc": ""}
             if st == "exc":
                 ev["exc"] = res
             else:
-                ev["res"] = bool(res)
                 ev["inserted"] = any(mem is ind for mem in arch)
+                # only add() reports success; the other entry points are judged on the content alone
+                ev["res"] = bool(res) if how == "add" else ev["inserted"]
                 ev["after"] = [proj[id(mem)][0] for mem in arch]
             trace.append(ev)
         else:
